@@ -408,20 +408,20 @@ def run_shard(desc):
             c = _atom_case("atom", text, base, e)
             if c["expect"] is None:
                 c["tags"] += why
-            _run(sh, c, nontrivial=not (base in _REF.symbols and e == ""), sample=(n == 7))
+            _run(sh, c, nontrivial=not (base in _REF.symbols and e == ""), sample=(n in (7, 400) and desc[1] == 0))
     elif kind == "insert":
         cases = _insert_cases()
         for n, (text, base, e, why) in enumerate(cases[desc[1]::desc[2]]):
             c = _atom_case("insert", text, base, e)
             c["tags"] += why
-            _run(sh, c, sample=(n == 7))
+            _run(sh, c, sample=(n == 7 and desc[1] == 0))
     elif kind == "sweep":
         names = sorted(_REF.spellings)
         for n, t in enumerate(names[desc[1]::desc[2]]):
             for k, tpl in enumerate(SWEEP):
                 text, signed = _sweep_case(tpl, t)
                 _run(sh, dict(sub="sweep", text=text, expect=_expect(signed), tags=["template:%d" % k]),
-                     sample=(n == 3 and k == 7))
+                     sample=(n == 3 and k == 7 and desc[1] == 0))
     elif kind == "struct":
         _, w, a, b = desc
         alpha = _window(w)
@@ -433,7 +433,8 @@ def run_shard(desc):
                         text, signed = _render(shape, leaves, ops)
                         _run(sh, dict(sub="struct", text=text, expect=_expect(signed),
                                       tags=["leaves:%d" % n, "window:%d" % w]),
-                             sample=(n == 4 and si == 9 and rest == [2, 3] and ops == ["/", "*", "/"]))
+                             sample=(n == 4 and si == 9 and (a, b) == (0, 1) and rest == [2, 3]
+                                     and ops == ["/", "*", "/"]))
         sh.add_to_set("windows", w)
     elif kind == "numeric":
         alpha = list(CORE) + list(NUMBERS)
@@ -448,7 +449,7 @@ def run_shard(desc):
                     for ops in _product([["*", "/"]] * (n - 1)):
                         text, signed = _render(shape, leaves, ops)
                         _run(sh, dict(sub="numeric", text=text, expect=_expect(signed), tags=["leaves:%d" % n]),
-                             sample=(n == 3 and rest == [7, 2]))
+                             sample=(n == 3 and a == 0 and rest == [7, 2] and ops == ["*", "/"]))
     else:
         raise HarnessError("unknown shard %r" % (desc,))
     _tables_guard(sh)
